@@ -23,7 +23,7 @@ from pathlib import Path
 from .. import common
 
 PROP = "C10"
-MODULES = ["XpmVerif.Properties.C10"]
+MODULES = ["XpmVerif.Properties.C10", "XpmVerif.Properties.C10Src"]
 PY = sys.executable
 WRAP = str(Path(__file__).resolve().parents[1] / "impl" / "crashwrap.py")
 SIGS = {"kill": int(signal.SIGKILL), "term": int(signal.SIGTERM), "int": int(signal.SIGINT)}
@@ -32,7 +32,7 @@ BLEN = len(BODY_POINTS)
 # (initial directory, body outcome)
 SCENARIOS = [("fresh", "ok"), ("failed", "ok"), ("done", "ok"), ("fresh", "exc"), ("fresh", "exit3"), ("fresh", "exit0")]
 WORKERS = 16
-CASE_KEYS = ("scenario", "k", "sig", "bodykill", "loc", "k2", "sig2", "loc2", "notify", "shape", "act")
+CASE_KEYS = ("scenario", "k", "j", "sig", "bodykill", "loc", "k2", "j2", "sig2", "loc2", "notify", "shape", "act")
 
 # known findings: the assembled known_findings.json is written by the lead (tools/mkmanifest.py); until then
 # (and afterwards, identically) the fragment of this property is read directly  -- local work-around, see report
@@ -49,8 +49,29 @@ def _load_findings(prop):
 common.load_findings = _load_findings
 
 
+SRC = {"info": None, "baseline": None}  # what the translator read off the source; the undisturbed real runs (shared with correspond)
+
+
+def _probe_switches(ctx):
+    """fallback of the translator: the two switches of the model read off the *behaviour* of the real code (undisturbed successful
+    run keeps / loses its pid file; order of the effects of handle_error on an undisturbed failing run)"""
+    def probe():
+        if SRC["baseline"] is None:
+            SRC["baseline"] = baseline(ctx, get_template(ctx))
+        _, bobs = SRC["baseline"]
+        return {"unregOnSuccess": bool(bobs[0]["dir"]["pid"]), "markerFirst": bool(MF[0])}
+    return probe
+
+
 def prove(ctx):
-    common.check_proofs(ctx, MODULES)
+    from ..translate import runsrc
+    ok, msg, info = runsrc.generate(common.REPO, common.LEAN, probe=_probe_switches(ctx))
+    SRC["info"] = info
+    ctx.notes.append(f"translator(runsrc): {msg}")
+    ctx.extra_cov["runsrc_translated"] = bool(info["translated"])
+    ctx.extra_cov["runsrc_fallback"] = len(info.get("failed") or {})
+    ctx.extra_cov["runsrc_fallback_parts"] = sorted(info.get("failed") or {})
+    common.check_proofs(ctx, MODULES, translate_msgs=[(ok, msg)])
 
 
 # ---------------------------------------------------------------- real code: job template
@@ -190,12 +211,12 @@ def get_template(ctx):
 # ---------------------------------------------------------------- real code: one launch
 
 
-def launch(tpl, jd, k, sig, outcome, bodykill="", shape="plain", act=""):
+def launch(tpl, jd, k, sig, outcome, bodykill="", shape="plain", act="", opj=0):
     """the scheduler side of `aio_start`/`aio_run`: take the job lock, spawn, write the pid file, release"""
     import fasteners
 
     env = dict(os.environ, C10_BODYLOG=str(jd / "bodylog"), C10_OUTCOME=outcome, C10_BODYKILL=bodykill,
-               C10_SHAPE=shape, C10_BODYACT=act)
+               C10_SHAPE=shape, C10_BODYACT=act, C10_OPJ=str(opj or 0))
     lock = fasteners.InterProcessLock(str(jd / tpl.rel["lock"]))
     with lock:
         with open(jd / "stderr", "a") as err:
@@ -312,9 +333,9 @@ def run_case(tpl, case):
             nd.mkdir(exist_ok=True)
             (nd / "c10").write_text(ENDPOINTS.url(case["notify"]))
         if bk and case.get("sig2"):  # fault sequence: signal inside the body, then a second one at the k2-th line of run.py
-            rc = launch(tpl, jd, case["k2"], SIGS[case["sig2"]], outcome, bk, shape, act)
+            rc = launch(tpl, jd, case["k2"], SIGS[case["sig2"]], outcome, bk, shape, act, opj=case.get("j2", 0))
         else:
-            rc = launch(tpl, jd, case.get("k", 0) if not bk else 0, sig, outcome, bk, shape, act)
+            rc = launch(tpl, jd, case.get("k", 0) if not bk else 0, sig, outcome, bk, shape, act, opj=case.get("j", 0) if not bk else 0)
         st = dirstate(tpl, jd)
         bl = bodylog(jd)
         eff = _read_log(jd / "efflog")
@@ -331,7 +352,8 @@ def run_case(tpl, case):
     nlines = max([e["n"] for e in eff if e["ev"] in ("lines", "lines-final") and e.get("n") is not None] or [0])
     return {"rc": rc, "dir": st, "starts": bl.count("start"), "completed": "end" in bl, "bodylog": bl,
             "relaunch": {"rc": rc2, "ran": bl2.count("start"), "dir": st2, "completed": "end" in bl2},
-            "kill": kill, "pre": pre, "nlines": nlines, "stderr": stderr_tail, "stderr1": stderr1}
+            "kill": kill, "pre": pre, "nlines": nlines, "stderr": stderr_tail, "stderr1": stderr1,
+            "nops": max([e.get("ops") or 0 for e in eff if e["ev"] == "lines-final"] or [0])}
 
 
 # ---------------------------------------------------------------- locating the model program location
@@ -578,6 +600,7 @@ def baseline(ctx, tpl):
             raise RuntimeError(f"baseline {c} did not run: {o['rc']} {o['stderr']}")
     MF[0] = probe_marker_first(obs[3])
     SEQ_RANGE[:] = _handler_range(obs[-1])
+    SRC["seqobs"] = obs[-1]
     return cases, obs[:-1]
 
 
@@ -604,6 +627,41 @@ def plan_sequences(ctx, thorough):
             seconds = list(SIGS) if thorough else (["kill"] + (["term", "int"] if k2 % 5 == 0 else []))
             for s2 in seconds:
                 cases.append({"scenario": list(SCENARIOS[0]), "bodykill": SEQ_POINT, "sig": first, "k": 0, "k2": k2, "sig2": s2})
+    return cases
+
+
+def _first_n(o, ev, name):
+    return next((e.get("n", 0) for e in o["pre"] if e["ev"] == ev and e.get("name") == name), 0)
+
+
+def plan_opcodes(ctx, tpl, bobs, thorough):
+    """signals at *bytecode* granularity inside the critical windows: from the line that writes the success marker (body returned;
+    body ended itself with status 0) or the failure marker (body raised; SIGTERM inside the body: second fault) to the end of the
+    process (except clause, handle_error, clean-up, interpreter exit).  A counting run per window gives the number of bytecodes of
+    run.py executed from the first line of the window; thorough enumerates every one x (SIGKILL, SIGTERM | SIGINT alternating), quick a
+    seeded sample of 5 per window."""
+    byscen = {tuple(sc): o for sc, o in zip(SCENARIOS, bobs)}
+    wins = []
+    for sc, ev, name in ((("fresh", "ok"), "touch", ".done"), (("fresh", "exit0"), "touch", ".done"), (("fresh", "exc"), "write", ".failed")):
+        k = _first_n(byscen[sc], ev, name)
+        if k:
+            wins.append({"scenario": list(sc), "k": k})
+    if SRC.get("seqobs") is not None:
+        k2 = _first_n(SRC["seqobs"], "write", ".failed")
+        if k2:
+            wins.append({"scenario": list(SCENARIOS[0]), "bodykill": SEQ_POINT, "sig": "term", "k": 0, "k2": k2})
+    count = [dict(w, **({"j2": 10 ** 7, "sig2": "kill"} if "k2" in w else {"j": 10 ** 7, "sig": "kill"})) for w in wins]
+    obs = run_all(ctx, tpl, count)
+    cases = []
+    for w, o in zip(wins, obs):
+        n = o["nops"]
+        ctx.count("opcode_window", f"{'/'.join(w['scenario'])}{':seq' if 'k2' in w else ''} from line event {w.get('k2') or w['k']}: {n} bytecodes")
+        js = list(range(1, n + 1))
+        if not thorough:
+            js = sorted(ctx.rng.sample(js, min(len(js), 5)))
+        for j in js:
+            for s in (["kill", "term" if j % 2 else "int"] if thorough else [ctx.rng.choice(list(SIGS))]):
+                cases.append(dict(w, j2=j, sig2=s) if "k2" in w else dict(w, j=j, sig=s))
     return cases
 
 
@@ -712,19 +770,33 @@ def correspond(ctx):
                 "try/except Exception | try/finally around the interrupted step) x SIGTERM/SIGINT inside the protected region -- the "
                 "real-code counterpart of the model rule 'no exception escapes handle_error before sys.exit(1)' (Model/Runner: the "
                 "handler always ends with `exit`); each followed by an undisturbed relaunch; thorough enumerates every executed line, "
-                "quick a seeded subset; non-trivial = the signal arrives after TaskRunner.run registered its clean-up "
+                "quick a seeded subset; plus signals at every bytecode of run.py from the marker write to the end of the process (4 windows); non-trivial = the signal arrives after TaskRunner.run registered its clean-up "
                 "(model location != init); distinct = distinct (scenario, line, signal, model location)")
     ctx.assumptions += [
         "fcntl/fasteners file locks: one holder, released by the OS when the holder dies (model rule, exercised by the lock probe after every death)",
         "POSIX signal delivery, CPython runs Python-level handlers between bytecodes of the main thread, atexit semantics (exercised, not proved)",
-        "signals are delivered at line boundaries of run.py and at three points inside the task body; finer bytecode boundaries are not enumerated",
+        "signals are delivered at line boundaries of run.py and at three points inside the task body; at every bytecode of run.py only inside the critical windows (from the write of the success / failure marker to the end of the process, 4 windows)",
         "at most two faults per real process in the enumeration (the model and the theorems allow any number)",
     ]
     tpl = get_template(ctx)
-    bcases, bobs = baseline(ctx, tpl)
+    bcases, bobs = SRC["baseline"] if SRC["baseline"] is not None else baseline(ctx, tpl)
     nlines = {tuple(c["scenario"]): o["nlines"] for c, o in zip(bcases, bobs)}
-    # which source variant is this?  public observable: does an undisturbed successful run keep its clean-up?
-    unreg = bool(bobs[0]["dir"]["pid"])
+    # which source variant is this?  Read off the AST (Generated/RunnerSrc.lean `runnerCfg`, obligations `source_switches`); the behaviour
+    # of the undisturbed runs (does a successful run keep its clean-up? which effect of handle_error comes first?) is the fallback when
+    # the source is outside the translator's subset, and a cross-check of the translator otherwise
+    unreg_probed, mf_probed = bool(bobs[0]["dir"]["pid"]), bool(MF[0])
+    info = SRC["info"] or {"translated": False}
+    if info.get("translated"):
+        unreg, MF[0] = bool(info["flags"]["unregOnSuccess"]), bool(info["flags"]["markerFirst"])
+        if (unreg, MF[0]) != (unreg_probed, mf_probed):
+            ctx.disagree({"switches": "runsrc"}, {"unregOnSuccess": unreg, "markerFirst": MF[0]}, {"unregOnSuccess": unreg_probed, "markerFirst": mf_probed},
+                         "the switches the translator read off run.py differ from the behaviour of the undisturbed real runs")
+            unreg, MF[0] = unreg_probed, mf_probed
+        ctx.notes.append("model switches (unregOnSuccess, markerFirst) AST-derived by translate/runsrc.py and equal to the probed behaviour")
+    else:
+        unreg = unreg_probed
+        ctx.notes.append(f"model switches probed on the real code (translator fell back: {info.get('why', 'not run')})")
+    source_order(ctx, bcases, bobs)
     ctx.notes.append(f"executed run.py lines per scenario: { {'/'.join(k): v for k, v in nlines.items()} }")
     ctx.notes.append(f"source variant probed on the undisturbed success path: atexit clean-up {'unregistered (F7 present)' if unreg else 'kept (repaired)'}; "
                      f"theorem own_exit_leaves_no_pid {'does not apply to this source' if unreg else 'applies'}")
@@ -736,7 +808,7 @@ def correspond(ctx):
                      f"theorems signal_in_body_marks_failed / marker_precedes_cleanup {'apply' if MF[0] else 'do not apply to this source'}")
     ctx.extra_cov["source_variant_marker_first"] = MF[0]
     ctx.notes.append(f"fault sequences: second fault at line events {SEQ_RANGE[0]}..{SEQ_RANGE[1]} after a signal at body point {SEQ_POINT}")
-    cases = bcases + plan(ctx, nlines, thorough, k0) + plan_sequences(ctx, thorough) + plan_helpers(ctx, thorough)
+    cases = bcases + plan(ctx, nlines, thorough, k0) + plan_sequences(ctx, thorough) + plan_helpers(ctx, thorough) + plan_opcodes(ctx, tpl, bobs, thorough)
     cases, obs = evaluate(ctx, tpl, cases, unreg)
     ctx.exhaustive = thorough
     # coverage of the model's locations by real kill points
@@ -753,6 +825,33 @@ def correspond(ctx):
         ctx.notes.append(f"coverage query failed: {e}")
     overlapping_launches(ctx)
     scheduler_launches(ctx)
+
+
+def source_order(ctx, bcases, bobs):
+    """tie of the translator to the running code: on every undisturbed real run (6 scenarios + SIGTERM inside the body) the order of the
+    effects seen by the taps on the library entry points (atexit, signal.signal, the lock, the marker files) must be the sequence that
+    translate/runsrc.py read off the AST (Generated/RunnerSrc.lean), projected on what the taps can see.  When the translator fell back
+    these are the reference sequences of the model: the same comparison then decides whether the model's order is the code's."""
+    from ..translate import runsrc
+    info = SRC["info"]
+    if not info or not info.get("seqs"):
+        return
+    seqs = info["seqs"]
+    which = {("fresh", "ok"): ("pathNormal", {}), ("failed", "ok"): ("pathNormal", {}), ("done", "ok"): ("pathDone", {}),
+             ("fresh", "exc"): ("pathFail", {}), ("fresh", "exit3"): ("pathExitS", {"m": 2}), ("fresh", "exit0"): ("pathExit0", {})}
+    runs = [(tuple(c["scenario"]), o) for c, o in zip(bcases, bobs)]
+    if SRC.get("seqobs") is not None:
+        runs.append((("fresh", "signal"), SRC["seqobs"]))
+    which[("fresh", "signal")] = ("pathSignal", {"c": SIGS["term"]})
+    for sc, o in runs:
+        name, kw = which[sc]
+        want, got = runsrc.observable(seqs[name], **kw), runsrc.observed(o["pre"])
+        ctx.count("source_order", f"{'/'.join(sc)}:{'same' if want == got else 'DIFFERENT'}")
+        ctx.case({"source_order": list(sc), "path": name}, True)
+        if want != got:
+            ctx.disagree({"source_order": list(sc), "path": name}, want, got,
+                         f"undisturbed real run {'/'.join(sc)}: the order of the effects on atexit / handlers / lock / marker files differs from the "
+                         f"sequence {'read off the AST' if info.get('translated') else 'the model assumes (translator fell back)'} ({name})")
 
 
 def scheduler_launches(ctx):
